@@ -27,6 +27,7 @@ var (
 )
 
 var vpBackendChunk []byte
+var vpBackendStopsReading bool // the host no longer reads what the gateway sends it
 var vpBackendHangsUp bool // after its chunk the host closes the connection (otherwise it stays quiet)
 var vpBackendReads [][]byte // when set: what the host's successive reads deliver (instead of one chunk)
 var vpStepTunnel *Tunnel
@@ -35,6 +36,7 @@ var vpSeenTarget, vpSeenAddr string
 func vpResetC01() {
 	vpBackendChunk = nil
 	vpBackendHangsUp = false
+	vpBackendStopsReading = false
 	vpBackendReads = nil
 	vpStepTunnel, vpSeenTarget, vpSeenAddr = nil, "", ""
 	vpDialLog = nil
@@ -53,7 +55,7 @@ func vpDial(network, address string, timeout time.Duration) (net.Conn, error) {
 	if vpBool("dialfail" + strconv.Itoa(len(vpDialLog))) {
 		return nil, errors.New("vpDial: connection refused")
 	}
-	c := &vpConn{block: !vpBackendHangsUp}
+	c := &vpConn{block: !vpBackendHangsUp, peerStopsReading: vpBackendStopsReading}
 	if vpBackendChunk != nil {
 		c.reads = [][]byte{vpBackendChunk} // the host sends one chunk and then stays quiet
 	}
